@@ -28,6 +28,8 @@ BatchOps ==
       \* the classes' own batch constructors / combinators
       O("from_images_20", "select", <<2, 0>>), O("append_self", "concat_self", <<0>>), O("append_other", "concat_other", <<4, 5>>),
       O("ellipsis_mid", "select", <<1, 2>>),
+      O("slice_1_3_chan_0_1", "selchan", <<1, 1, 2>>), O("list_20_chan_0_1", "selchan", <<1, 2, 0>>), O("mask_101_chan_0_1", "selchan", <<1, 0, 2>>),
+      O("slice_step2_chan_ellipsis", "selchan", <<1, 0, 2>>),
       O("int_1", "item", <<1>>), O("int_neg1", "item", <<2>>), O("select_0_2", "item", <<2>>), O("unbind_1", "item", <<1>>), O("iter_0", "item", <<0>>),
       O("tuple_int_0", "item", <<0>>),
       O("flip_0", "reverse", <<0>>), O("torch_flip_0", "reverse", <<0>>), O("roll_0_1", "roll", <<1>>), O("roll_0_2", "roll", <<2>>),
